@@ -1,10 +1,24 @@
 
+val negb : bool -> bool
+
+type nat =
+| O
+| S of nat
+
+val fst : ('a1 * 'a2) -> 'a1
+
+val snd : ('a1 * 'a2) -> 'a2
+
+val app : 'a1 list -> 'a1 list -> 'a1 list
+
 type comparison =
 | Eq
 | Lt
 | Gt
 
 val compOpp : comparison -> comparison
+
+val add : nat -> nat -> nat
 
 type positive =
 | XI of positive
@@ -22,28 +36,367 @@ type z =
 
 module Pos :
  sig
+  type mask =
+  | IsNul
+  | IsPos of positive
+  | IsNeg
+ end
+
+module Coq_Pos :
+ sig
+  val succ : positive -> positive
+
+  val add : positive -> positive -> positive
+
+  val add_carry : positive -> positive -> positive
+
+  val pred_double : positive -> positive
+
+  val pred_N : positive -> n
+
+  type mask = Pos.mask =
+  | IsNul
+  | IsPos of positive
+  | IsNeg
+
+  val succ_double_mask : mask -> mask
+
+  val double_mask : mask -> mask
+
+  val double_pred_mask : positive -> mask
+
+  val sub_mask : positive -> positive -> mask
+
+  val sub_mask_carry : positive -> positive -> mask
+
+  val mul : positive -> positive -> positive
+
+  val iter : ('a1 -> 'a1) -> 'a1 -> positive -> 'a1
+
   val compare_cont : comparison -> positive -> positive -> comparison
 
   val compare : positive -> positive -> comparison
 
   val eqb : positive -> positive -> bool
+
+  val coq_Nsucc_double : n -> n
+
+  val coq_Ndouble : n -> n
+
+  val coq_lor : positive -> positive -> positive
+
+  val coq_land : positive -> positive -> n
+
+  val ldiff : positive -> positive -> n
+
+  val coq_lxor : positive -> positive -> n
+
+  val shiftl : positive -> n -> positive
+
+  val testbit : positive -> n -> bool
+
+  val iter_op : ('a1 -> 'a1 -> 'a1) -> positive -> 'a1 -> 'a1
+
+  val to_nat : positive -> nat
  end
 
 module N :
  sig
+  val succ_double : n -> n
+
+  val double : n -> n
+
+  val succ : n -> n
+
+  val pred : n -> n
+
+  val add : n -> n -> n
+
+  val sub : n -> n -> n
+
+  val mul : n -> n -> n
+
   val compare : n -> n -> comparison
 
   val eqb : n -> n -> bool
+
+  val leb : n -> n -> bool
+
+  val ltb : n -> n -> bool
+
+  val max : n -> n -> n
+
+  val div2 : n -> n
+
+  val pos_div_eucl : positive -> n -> n * n
+
+  val div_eucl : n -> n -> n * n
+
+  val div : n -> n -> n
+
+  val modulo : n -> n -> n
+
+  val coq_lor : n -> n -> n
+
+  val coq_land : n -> n -> n
+
+  val ldiff : n -> n -> n
+
+  val coq_lxor : n -> n -> n
+
+  val shiftl : n -> n -> n
+
+  val shiftr : n -> n -> n
+
+  val testbit : n -> n -> bool
+
+  val to_nat : n -> nat
+
+  val ones : n -> n
  end
+
+val nth : nat -> 'a1 list -> 'a1 -> 'a1
+
+val nth_error : 'a1 list -> nat -> 'a1 option
+
+val map : ('a1 -> 'a2) -> 'a1 list -> 'a2 list
+
+val flat_map : ('a1 -> 'a2 list) -> 'a1 list -> 'a2 list
+
+val fold_left : ('a1 -> 'a2 -> 'a1) -> 'a2 list -> 'a1 -> 'a1
+
+val existsb : ('a1 -> bool) -> 'a1 list -> bool
+
+val filter : ('a1 -> bool) -> 'a1 list -> 'a1 list
+
+val skipn : nat -> 'a1 list -> 'a1 list
 
 module Z :
  sig
+  val double : z -> z
+
+  val succ_double : z -> z
+
+  val pred_double : z -> z
+
+  val pos_sub : positive -> positive -> z
+
+  val add : z -> z -> z
+
   val opp : z -> z
+
+  val mul : z -> z -> z
 
   val compare : z -> z -> comparison
 
+  val leb : z -> z -> bool
+
+  val ltb : z -> z -> bool
+
   val eqb : z -> z -> bool
+
+  val to_N : z -> n
+
+  val of_N : n -> z
  end
+
+val piece_zobrist_tbl : n list
+
+val castle_zobrist_tbl : n list
+
+val ep_zobrist_tbl : n list
+
+val turn_zobrist_tbl : n list
+
+val mask64 : n
+
+val trunc64 : n -> n
+
+val not64 : n -> n
+
+val shl64 : n -> n -> n
+
+val shr64 : n -> n -> n
+
+val bit : n -> n
+
+val pos_tz : positive -> n
+
+val tz64 : n -> n
+
+val pos_popcount : positive -> n
+
+val popcount : n -> n
+
+val byte_of : n -> n -> n
+
+val bswap64 : n -> n
+
+val sq_list : n list
+
+val elements : n -> n list
+
+type color =
+| White
+| Black
+
+val file_of : n -> n
+
+val rank_of : n -> n
+
+val bb_empty : n
+
+val from_pos : n -> n
+
+val fIRST_FILE : n
+
+val fIRST_RANK : n
+
+val from_file : n -> n
+
+val from_rank : n -> n
+
+val bb_or : n -> n -> n
+
+val bb_and : n -> n -> n
+
+val bb_xor : n -> n -> n
+
+val bb_not : n -> n
+
+val bb_diff : n -> n -> n
+
+val any : n -> bool
+
+val none : n -> bool
+
+val bb_all : n -> bool
+
+val bb_some : n -> bool
+
+val contains : n -> n -> bool
+
+val bb_with : n -> n -> n
+
+val cleared : n -> n -> n
+
+val shift_up : n -> n
+
+val shift_down : n -> n
+
+val shift_left : n -> n
+
+val shift_right : n -> n
+
+val count : n -> n
+
+val flip_ranks : n -> n
+
+val pop : n -> (n * n) option
+
+val it_next : n -> n option * n
+
+val nth_default_fuel : nat -> n -> n -> n option * n
+
+val nth_default : n -> n -> n option * n
+
+val from_squares : n list -> n
+
+val from_boards : n list -> n
+
+val iter_fuel : nat -> n -> n list
+
+val iter_list : n -> n list
+
+val sq_off : n -> z -> z -> n option
+
+val set_of : n list -> n
+
+val opt_list : 'a1 option -> 'a1 list
+
+val offsets_set : n -> (z * z) list -> n
+
+type dir =
+| DN
+| DS
+| DE
+| DW
+| DNE
+| DNW
+| DSE
+| DSW
+
+val dvec : dir -> z * z
+
+val dopp : dir -> dir
+
+val rook_dirs : dir list
+
+val bishop_dirs : dir list
+
+val all_dirs : dir list
+
+val step : dir -> n -> n option
+
+val ray_fuel : nat -> dir -> n -> n list
+
+val ray : dir -> n -> n list
+
+val knight_offs : (z * z) list
+
+val king_offs : (z * z) list
+
+val knight_geo : n -> n
+
+val king_geo : n -> n
+
+val fwd : color -> z
+
+val pawn_att_geo : color -> n -> n
+
+val start_rank : color -> n
+
+val pawn_push_geo : color -> n -> n
+
+val rays_set : dir list -> n -> n
+
+val rook_rays_geo : n -> n
+
+val bishop_rays_geo : n -> n
+
+val before : n -> n list -> n list option
+
+val between_list : n -> n -> n list
+
+val between_geo : n -> n -> n
+
+val on_ray : n -> n -> dir -> bool
+
+val line_geo : n -> n -> n
+
+val absdiff : n -> n -> n
+
+val dist_geo : n -> n -> n
+
+val slide_ray : n -> n list -> n list
+
+val slide : dir list -> n -> n -> n
+
+val rook_attacks : n -> n -> n
+
+val bishop_attacks : n -> n -> n
+
+val pawn_quiets_spec : color -> n -> n -> n
+
+val pawn_attacks_spec : color -> n -> n -> n
+
+val pawn_moves_spec : color -> n -> n -> n
+
+val nthN : n list -> n -> n
+
+val lk_castle_zobrist : n -> n
+
+val lk_ep_zobrist : n -> n
 
 type score =
 | SMin
@@ -60,9 +413,9 @@ val partial_cmp : score -> score -> comparison option
 
 val eqb0 : score -> score -> bool
 
-val ltb : score -> score -> bool
+val ltb0 : score -> score -> bool
 
-val leb : score -> score -> bool
+val leb0 : score -> score -> bool
 
 val gtb : score -> score -> bool
 
@@ -71,6 +424,239 @@ val smax : score -> score -> score
 val smin : score -> score -> score
 
 val neg : score -> score
+
+type promo =
+| PKnight
+| PBishop
+| PRook
+| PQueen
+
+type st_promo =
+| StKnight
+| StBishop
+| StRook
+| StQueen
+| StNone
+
+type mi_promo =
+| MiKnight
+| MiBishop
+| MiRook
+| MiQueen
+| MiNone
+| MiIllegal
+
+type cmove = { c_src : n; c_dst : n; c_piece : promo option }
+
+type smove = { s_src : n; s_dst : n; s_piece : st_promo }
+
+type omove = { o_src : n; o_dst : n; o_piece : mi_promo }
+
+val to_stable : cmove -> smove
+
+val of_stable : smove -> cmove
+
+val to_opt_some : cmove -> omove
+
+val to_opt : cmove option -> omove
+
+val of_opt : omove -> cmove option
+
+type st_score =
+| StMin
+| StBlackMateIn of n
+| StRaw of z
+| StWhiteMateIn of n
+| StMax
+
+val score_to : score -> st_score
+
+val score_of : st_score -> score
+
+val evaluated_roundtrip : cmove option -> score -> cmove option * score
+
+val wrapping_sub_u8 : n -> n -> n
+
+val abs_diff : n -> n -> n
+
+val enum_from_u8 : n -> n -> n option
+
+val pos_from_u8 : n -> n option
+
+val color_not : n -> n
+
+val side_not : n -> n
+
+val pos_new : n -> n -> n
+
+val pos_file : n -> n
+
+val pos_rank : n -> n
+
+val file_shift_left : n -> n option
+
+val file_shift_right : n -> n option
+
+val rank_shift_down : n -> n option
+
+val rank_shift_up : n -> n option
+
+val pos_shift_up : n -> n option
+
+val pos_shift_down : n -> n option
+
+val pos_shift_left : n -> n option
+
+val pos_shift_right : n -> n option
+
+val rank_flip : n -> n
+
+val pos_flip_rank : n -> n
+
+val dist_to : n -> n -> n
+
+val file_show : n -> n list
+
+val rank_show : n -> n list
+
+val pos_show : n -> n list
+
+val promo_show : n -> n list
+
+val move_show : (n * n) -> n list
+
+val move_show_full : n -> n -> n option -> n list
+
+val file_from_ascii_byte : n -> n option
+
+val rank_from_ascii_byte : n -> n option
+
+val file_from_ascii_bytes : n list -> n option
+
+val rank_from_ascii_bytes : n list -> n option
+
+val pos_from_ascii_bytes : n list -> n option
+
+val piece_from_ascii_byte : n -> n option
+
+val piece_from_ascii_bytes : n list -> n option
+
+val promo_from_ascii_byte : n -> n option
+
+val promo_from_ascii_bytes : n list -> n option
+
+val move_of_bytes : n -> n -> n -> n -> (n * n) option
+
+val move_from_ascii_bytes : n list -> (n * n) option
+
+type range = { lo : n; hi : n }
+
+val forward_checked : n -> n -> n option
+
+val backward_checked : n -> n -> n option
+
+val r_next : range -> n option * range
+
+val r_nth : n -> range -> n option * range
+
+val r_next_back : range -> n option * range
+
+val r_nth_back : n -> range -> n option * range
+
+val r_size_hint : range -> n * n option
+
+type iop =
+| INext
+| INextBack
+| INth of n
+| INthBack of n
+| ISizeHint
+
+val r_step : iop -> range -> n option * range
+
+val it_step : n -> iop -> range -> n option * range
+
+val run_it : n -> range -> iop list -> n option list
+
+val run_iter : n -> iop list -> n option list
+
+val allpos_next : n -> n option * n
+
+val allpos_size_hint : n -> n
+
+val allpos_step : iop -> n -> n option * n
+
+val run_allpos_from : n -> iop list -> n option list
+
+val run_allpos : iop list -> n option list
+
+val file_iter_next : n -> range -> n option * range
+
+val rank_iter_next : n -> range -> n option * range
+
+type flag =
+| FGlobal
+| FEnabled
+| FDisabled
+
+type op =
+| OEnable
+| ODisable
+| OToggle
+| OLocalEnable
+| OLocalDisable
+| OLocalToggle
+| OLocalTake
+| ORestore of flag
+| OIsEnabled
+
+type st = { g : bool; loc : (n * flag) list }
+
+val lookup : (n * flag) list -> n -> flag
+
+val update : (n * flag) list -> n -> flag -> (n * flag) list
+
+val get_loc : st -> n -> flag
+
+val set_loc : st -> n -> flag -> st
+
+val set_g : st -> bool -> st
+
+val toggle_flag : flag -> flag
+
+val view : st -> n -> bool
+
+val step0 : st -> n -> op -> (st * bool option) * flag option
+
+val init : st
+
+val views : st -> n list -> bool list
+
+type sop =
+| SEnable
+| SDisable
+| SToggle
+| SLocalEnable
+| SLocalDisable
+| SLocalToggle
+| SLocalTake
+| SRestoreTop
+| SIsEnabled
+
+type stacks = (n * flag list) list
+
+val get_stack : stacks -> n -> flag list
+
+val set_stack : stacks -> n -> flag list -> stacks
+
+val resolve_op : flag list -> sop -> op
+
+val sstep : st -> stacks -> n -> sop -> st * stacks
+
+val run_stack_from :
+  n list -> st -> stacks -> (n * sop) list -> (st * stacks) * bool list list
+
+val run_stack : n list -> (n * sop) list -> bool list list
 
 val api_score_cmp : score -> score -> comparison
 
@@ -89,3 +675,161 @@ val api_score_max : score -> score -> score
 val api_score_min : score -> score -> score
 
 val api_score_neg : score -> score
+
+val api_color : n -> color
+
+val api_table : n -> n -> n
+
+val api_between : n -> n -> n
+
+val api_line : n -> n -> n
+
+val api_dist : n -> n -> n
+
+val api_rook_attacks : n -> n -> n
+
+val api_bishop_attacks : n -> n -> n
+
+val api_pawn_quiets : n -> n -> n -> n
+
+val api_pawn_attacks : n -> n -> n -> n
+
+val api_pawn_moves : n -> n -> n -> n
+
+val api_ranks : n list -> n
+
+val api_files : n list -> n
+
+val api_squares : n list -> n
+
+val api_adjacent : n -> n
+
+val api_adjacent_ranks : n -> n
+
+val api_zk : n -> n -> n
+
+val api_elements : n -> n list
+
+val api_bb_not : n -> n
+
+val api_shift_up : n -> n
+
+val api_shift_down : n -> n
+
+val api_shift_left : n -> n
+
+val api_shift_right : n -> n
+
+val api_flip_ranks : n -> n
+
+val api_count : n -> n
+
+val api_pop : n -> (n * n) option
+
+val api_iter_list : n -> n list
+
+val api_from_squares : n list -> n
+
+val api_from_boards : n list -> n
+
+val api_from_pos : n -> n
+
+val api_from_file : n -> n
+
+val api_from_rank : n -> n
+
+val api_contains : n -> n -> bool
+
+val api_with : n -> n -> n
+
+val api_cleared : n -> n -> n
+
+val api_or : n -> n -> n
+
+val api_and : n -> n -> n
+
+val api_xor : n -> n -> n
+
+val api_diff : n -> n -> n
+
+val api_any : n -> bool
+
+val api_none : n -> bool
+
+val api_all : n -> bool
+
+val api_some : n -> bool
+
+val api_nth_default : n -> n -> n option * n
+
+val api_nth_spec : n -> n -> n option * n
+
+val api_abi_stable_rt : cmove -> cmove
+
+val api_abi_eval_rt : cmove option -> score -> cmove option * score
+
+val api_file_from_ascii_bytes : n list -> n option
+
+val api_rank_from_ascii_bytes : n list -> n option
+
+val api_pos_from_ascii_bytes : n list -> n option
+
+val api_piece_from_ascii_bytes : n list -> n option
+
+val api_promo_from_ascii_bytes : n list -> n option
+
+val api_move_from_ascii_bytes : n list -> (n * n) option
+
+val api_pos_show : n -> n list
+
+val api_file_show : n -> n list
+
+val api_rank_show : n -> n list
+
+val api_move_show_full : n -> n -> n option -> n list
+
+val api_enum_from_u8 : n -> n -> n option
+
+val api_pos_file : n -> n
+
+val api_pos_rank : n -> n
+
+val api_pos_new : n -> n -> n
+
+val api_pos_shift_up : n -> n option
+
+val api_pos_shift_down : n -> n option
+
+val api_pos_shift_left : n -> n option
+
+val api_pos_shift_right : n -> n option
+
+val api_pos_flip_rank : n -> n
+
+val api_file_shift_left : n -> n option
+
+val api_file_shift_right : n -> n option
+
+val api_rank_shift_down : n -> n option
+
+val api_rank_shift_up : n -> n option
+
+val api_rank_flip : n -> n
+
+val api_dist_to : n -> n -> n
+
+val api_color_not : n -> n
+
+val api_side_not : n -> n
+
+val api_run_iter : n -> iop list -> n option list
+
+val api_run_allpos : iop list -> n option list
+
+val api_file_iter_next : n -> range -> n option * range
+
+val api_rank_iter_next : n -> range -> n option * range
+
+val api_mk_range : n -> n -> range
+
+val api_run_stack : n list -> (n * sop) list -> bool list list
